@@ -39,7 +39,8 @@ typedef struct {
 #define CURVES_ALL  (((uint32_t)1 << 23) | ((uint32_t)1 << 24) | ((uint32_t)1 << 25) | ((uint32_t)1 << 29))
 #define HASHES_ALL  0x7Eu
 static const int curve_ids[4] = { 23, 24, 25, 29 };
-static const char *alpn_universe[4] = { "h2", "http/1.1", "spdy/3", "x-verif" };
+/* several names are proper prefixes of others: matching must be exact */
+static const char *alpn_universe[8] = { "h2", "http/1.1", "spdy/3", "x-verif", "h2c", "http/1", "spdy/3.1", "x" };
 static const char *kind_names[] = { "versions", "single", "pair", "flags", "subsets", "alpn-sni", "random", "scripted" };
 enum { K_VERSIONS, K_SINGLE, K_PAIR, K_FLAGS, K_SUBSETS, K_ALPN, K_RANDOM, K_SCRIPTED };
 
@@ -204,8 +205,8 @@ range_from_index(int i, unsigned *vmin, unsigned *vmax)
 static void
 random_alpn(vf_rng *r, side *sd, size_t n)
 {
-	int perm[4] = { 0, 1, 2, 3 }, i;
-	for (i = 4; i > 1; i --) { int j = (int)vf_below(r, (uint32_t)i), t = perm[i - 1]; perm[i - 1] = perm[j]; perm[j] = t; }
+	int perm[8] = { 0, 1, 2, 3, 4, 5, 6, 7 }, i;
+	for (i = 8; i > 1; i --) { int j = (int)vf_below(r, (uint32_t)i), t = perm[i - 1]; perm[i - 1] = perm[j]; perm[j] = t; }
 	sd->nalpn = n;
 	for (i = 0; i < (int)n; i ++) sd->alpn[i] = alpn_universe[perm[i]];
 }
@@ -737,14 +738,14 @@ build_hello(vf_rng *r, const side *S, bb *h, unsigned *rec_version)
 				ext_begin(h, 0x000B, &m); b8(h, 1); b8(h, 0); ext_end(h, m);
 				break;
 			case 4: {   /* ALPN */
-				static const char *extra[] = { "zz", "h2c", "http/1.0" };
+				static const char *extra[] = { "zz", "h", "http/1.0" };
 				size_t lm, k2 = 1 + vf_below(r, 3);
-				int perm[7] = { 0, 1, 2, 3, 4, 5, 6 }, a;
-				for (a = 7; a > 1; a --) { int u = (int)vf_below(r, (uint32_t)a), t = perm[a - 1]; perm[a - 1] = perm[u]; perm[u] = t; }
+				int perm[11] = { 0, 1, 2, 3, 4, 5, 6, 7, 8, 9, 10 }, a;
+				for (a = 11; a > 1; a --) { int u = (int)vf_below(r, (uint32_t)a), t = perm[a - 1]; perm[a - 1] = perm[u]; perm[u] = t; }
 				ext_begin(h, 0x0010, &m);
 				lm = h->n; b16(h, 0);
 				for (i = 0; i < k2; i ++) {
-					const char *nm = perm[i] < 4 ? alpn_universe[perm[i]] : extra[perm[i] - 4];
+					const char *nm = perm[i] < 8 ? alpn_universe[perm[i]] : extra[perm[i] - 8];
 					b8(h, (unsigned)strlen(nm)); bput(h, nm, strlen(nm));
 				}
 				bset16(h, lm, (unsigned)(h->n - lm - 2));
